@@ -69,3 +69,15 @@ Theorem C15_client_finish_shape : skel_tunnelClientStream_finishStream =
   ["call done.CompareAndSwap"; "defer call cancel"; "call ch.removeStream"; "defer call receiver.close"; "call metaMu.Lock"; "defer call metaMu.Unlock"; "set trailers"; "set gotHeaders"; "close gotHeadersSignal"; "close doneSignal"].
 Proof. exact tunnelClientStream_finishStream_shape. Qed.
 Print Assumptions C15_client_finish_shape.
+
+(* the ordering behind the three exemptions of the access table: under every interleaving of the
+   receive loop, the constructor, any closer, the context and a caller, useRevision / settings are
+   never read before they are published; the constructor before repair F15 is refuted *)
+From GT Require Import CtorGate.
+Theorem C15_settings_never_read_before_published : forall ls s, grun true g_init ls = Some s -> g_bad s = false.
+Proof. exact settings_never_read_before_published. Qed.
+Print Assumptions C15_settings_never_read_before_published.
+
+Theorem C15_unrepaired_constructor_refuted : exists ls s, grun false g_init ls = Some s /\ g_bad s = true.
+Proof. exact unrepaired_constructor_races. Qed.
+Print Assumptions C15_unrepaired_constructor_refuted.
